@@ -71,16 +71,19 @@ InitCommon(c) ==
 
 \* suggest() returned a NEW configuration c (sequence of indices) for trial t; bits computed by the driver:
 \* keys = all keys of the space present, consts = constants unchanged, types = every value has the domain's type
-EvSuggest(t, c, keys, consts, types) ==
+\* clone = the new trial is started from the checkpoint of another trial (population-based training: the scheduler's
+\* exploit step continues a member of the population under a new trial id; such a start is not drawn from the initial
+\* configurations and does not consume one)
+EvSuggest(t, c, keys, consts, types, clone) ==
   /\ flags' = flags
        \cup Flag(~keys, "missing_key") \cup Flag(~consts, "constant_changed") \cup Flag(~types, "wrong_type")
        \cup Flag(~Member(c), "outside_domain")
-       \cup Flag(queue # <<>> /\ c # Head(queue), "initial_order")
+       \cup Flag(~clone /\ queue # <<>> /\ c # Head(queue), "initial_order")
        \cup Flag(cf.norepeat /\ c \in suggested, "repeat")
        \cup Flag(cf.nofail /\ c \in failedc, "failed_resuggested")                 \* C13
        \* (only where no-repeat is promised: PBT queues clones of known configurations although its random searcher is exhausted)
        \cup Flag(done /\ cf.norepeat, "suggest_after_nothing_left")
-  /\ queue' = IF queue # <<>> THEN Tail(queue) ELSE queue
+  /\ queue' = IF queue # <<>> /\ ~clone THEN Tail(queue) ELSE queue
   /\ suggested' = suggested \cup {c}
   /\ nsug' = nsug + 1
   /\ byTrial' = byTrial \cup {<<t, c>>}
@@ -119,9 +122,9 @@ SameContinuation     == NoFlag("twin_diverged")
    consistency and to enumerate histories *)
 AllConfigs == {c \in [1..Len(cf.doms) -> 0..8] : Member(c)}
 A_Suggest ==
-  IF queue # <<>> THEN EvSuggest(nsug, Head(queue), TRUE, TRUE, TRUE)
+  IF queue # <<>> THEN EvSuggest(nsug, Head(queue), TRUE, TRUE, TRUE, FALSE)
   ELSE LET free == (IF cf.norepeat THEN AllConfigs \ suggested ELSE AllConfigs) \ (IF cf.nofail THEN failedc ELSE {}) IN
-       IF free = {} THEN EvNone ELSE \E c \in free : EvSuggest(nsug, c, TRUE, TRUE, TRUE)
+       IF free = {} THEN EvNone ELSE \E c \in free : EvSuggest(nsug, c, TRUE, TRUE, TRUE, FALSE)
 \* a trial started so far may fail (design level: at most two failed configurations)
 A_Fail == /\ Cardinality(failedc) < 2
           /\ \E t \in {p[1] : p \in byTrial} : (\A p \in byTrial : p[1] = t => p[2] \notin failedc) /\ EvFail(t)
